@@ -97,6 +97,11 @@ def _alphabet() -> list[L]:
             L(f"{k}: > 1", k, ""),
             L(f"{k}: X", k, "X", "missing-operator"),
             L(f"{k}: X >", k, "X", "missing-value"),
+            L(f"{k}: X ==", k, "X", "missing-value"),          # every comparator: the value may be missed by another route
+            L(f"{k}: X !=", k, "X", "missing-value"),
+            L(f"{k}: X = ", k, "X", "missing-value"),
+            L(f"{k}: X <=", k, "X", "missing-value"),
+            L(f"{k}: Temp ==", k, "Temp", "missing-value"),
             L(f"{k}: X > 1 degC", k, "X", note="unit on unit-less tag"),
             L(f"{k}: Pressure", k, "Pressure", "missing-operator"),
         ]
